@@ -82,6 +82,18 @@ func (c *Client) AddHandlers(n int) {
 // WaitMarker waits until every handler has seen the add event of row u: the
 // event queue is FIFO, so every earlier event has been delivered too.
 func (c *Client) WaitMarker(u string, d time.Duration) bool {
+	if c.barrierFailed {
+		// events got lost before: later barriers are reported (they fail again) without the long wait
+		d = 300 * time.Millisecond
+	}
+	ok := c.waitMarker(u, d)
+	if !ok {
+		c.barrierFailed = true
+	}
+	return ok
+}
+
+func (c *Client) waitMarker(u string, d time.Duration) bool {
 	deadline := time.Now().Add(d)
 	for time.Now().Before(deadline) {
 		ok := true
